@@ -134,6 +134,7 @@ def run(prop, tier, *, mc_module, mc_cfg, driver, trace_module, trace_spec="TSpe
     for (chunk, n), vr in results:
         cur_chunk, cur = chunk, vr
         rounds = 0
+        unrep_here = 0
         while not cur.ok:
             if len(violations) >= C.MAX_VIOLATIONS:
                 C.log("[%s] %d witnesses reported; further rejected traces are not enumerated" % (prop, len(violations)))
@@ -152,8 +153,10 @@ def run(prop, tier, *, mc_module, mc_cfg, driver, trace_module, trace_spec="TSpe
                 violations.append(dict(key=key, replay=replay, text="rejected event: %s" % json.dumps(evs[min(idx - 1 - j, len(evs) - 1)])[:300]))
             else:
                 # e.g. state left behind by earlier cases in the same process: keep looking for a case that fails on its own
+                # (at most 4 such per chunk and 40 in all, so that later chunks are still looked at)
                 unreproduced.append(replay)
-                if len(unreproduced) > 12:
+                unrep_here += 1
+                if unrep_here >= 4 or len(unreproduced) >= 40:
                     break
             rounds += 1
             rest = open(cur_chunk).read().splitlines(keepends=True)[k:]
